@@ -95,6 +95,24 @@ def o_geo(case):
     if (cfg.towers[0].x, cfg.towers[0].y) != (x, y):
         return fail("C17/config-tower-xy", "a configuration does not convert its tower's lat/lon to local coordinates with the domain's reference origin",
                     None, [x, y], [cfg.towers[0].x, cfg.towers[0].y], 0)
+    # the SAME tower objects under another reference origin (a configuration re-centred on another tower with dataclasses.replace,
+    # towers handed to a second configuration, compute_local_xy called again): local coordinates follow the origin they are asked for
+    import dataclasses
+    lat_b, lon_b = xy_to_latlon(-0.6 * x0 + 40.0, 0.8 * y0 - 25.0, rlat, rlon)
+    cfg2 = parse_config_dict(dict(domain=dict(nx=4, ny=4, xmax=10.0, ymax=10.0, nz=3, ref_lat=rlat, ref_lon=rlon),
+                                  towers=[dict(name="a", lat=float(lat), lon=float(lon), z_m=2.0), dict(name="b", lat=float(lat_b), lon=float(lon_b), z_m=3.0)],
+                                  met=dict(ustar=0.3)))
+    new_ref = (float(lat_b), float(lon_b))
+    cfg3 = dataclasses.replace(cfg2, domain=dataclasses.replace(cfg2.domain, ref_lat=new_ref[0], ref_lon=new_ref[1]))
+    for tw in cfg3.towers:
+        ex, ey = latlon_to_xy(tw.lat, tw.lon, new_ref[0], new_ref[1])
+        if (tw.x, tw.y) != (ex, ey):
+            return fail("C17/tower-rewired", "tower %s of a configuration re-centred on another origin keeps local coordinates of the old origin" % tw.name,
+                        None, [ex, ey], [tw.x, tw.y], 0)
+    t.compute_local_xy(new_ref[0], new_ref[1])
+    if (t.x, t.y) != tuple(latlon_to_xy(t.lat, t.lon, new_ref[0], new_ref[1])):
+        return fail("C17/tower-rewired", "compute_local_xy called for a second origin does not give the coordinates relative to that origin", None,
+                    list(latlon_to_xy(t.lat, t.lon, new_ref[0], new_ref[1])), [t.x, t.y], 0)
     return None
 
 
